@@ -5,7 +5,8 @@ Inductive err :=
   | EInvalidVersion         (* InvalidVersionError (a ValueError) *)
   | EInvalidMarker | EUndefinedComparison | EUndefinedEnvName
   | ERecursion | EOutOfFuel
-  | ENested.               (* a shape the model does not represent (reported, never compared equal) *)
+  | ENested
+  | ENoPattern.            (* internal: no clause pattern matched (surfaces as ParseConstraintError) *)               (* a shape the model does not represent (reported, never compared equal) *)
 Inductive res (A : Type) := Ok (a : A) | Err (e : err).
 Arguments Ok {A} a. Arguments Err {A} e.
 Definition bind {A B} (x : res A) (f : A -> res B) : res B :=
@@ -15,9 +16,12 @@ Definition assert (b : bool) : res unit := if b then Ok tt else Err EAssert.
 Definition err_name (e : err) : nat :=
   match e with EAssert => 0 | EValue => 1 | EIndex => 2 | EKey => 3 | EAttr => 4 | EType => 5 | ERuntime => 6
   | EParseConstraint => 7 | EInvalidVersion => 8 | EInvalidMarker => 9 | EUndefinedComparison => 10
-  | EUndefinedEnvName => 11 | ERecursion => 12 | EOutOfFuel => 13 | ENested => 14 end.
-Fixpoint mapR {A B} (f : A -> res B) (l : list A) : res (list B) :=
-  match l with
-  | nil => Ok nil
-  | cons x r => do y <- f x; do ys <- mapR f r; Ok (cons y ys)
-  end.
+  | EUndefinedEnvName => 11 | ERecursion => 12 | EOutOfFuel => 13 | ENested => 14 | ENoPattern => 15 end.
+Section MapR.
+  Context {A B : Type} (f : A -> res B).
+  Fixpoint mapR (l : list A) : res (list B) :=
+    match l with
+    | nil => Ok nil
+    | cons x r => do y <- f x; do ys <- mapR r; Ok (cons y ys)
+    end.
+End MapR.
